@@ -1,8 +1,8 @@
 """SMT prelude of pyvc: one universal value sort V with Dafny-style triggered
 axioms for sequences, maps (insertion ordered) and sets.  E-matching only.
 
-Every axiom has a name; the same names are used in lean/CollectionAxioms.lean
-where the statement is proved about List / Finset / association lists.
+Every axiom has a name.  The axioms are TRUSTED (not proved); pyvc/axiom_model.py evaluates each of them in the intended
+model (tuples / association lists / frozensets) over a small universe on every run of a proof-level check.
 """
 from z3 import (DeclareSort, Const, Consts, Function, IntSort, BoolSort, ForAll, Exists,
                 Implies, And, Or, Not, If, Int, Ints, MultiPattern, IntVal, BoolVal)
